@@ -192,6 +192,12 @@ def check_case(run, case, tier='quick'):
     import random
     rng = random.Random(case['hseed'])
     name, path = gstream.materialise(case['spec'], 'c15')
+    # a third of the cases run with the temporary directory (TMPDIR) on another file system than the program and its session files
+    import tempfile, shutil
+    alt_tmp, old_tmp, old_env = (repo.other_filesystem_tmpdir() if rng.random() < 0.35 else None), tempfile.tempdir, os.environ.get('TMPDIR')
+    if alt_tmp:
+        tempfile.tempdir = alt_tmp; os.environ['TMPDIR'] = alt_tmp
+        run.ev('cases_with_tmpdir_on_another_file_system')
     sn = session.new_session_name('c15') + rng.choice(['a', 's', 'v', '.s', 'x', '_1', '.sav', '.saved.1', '.sav.bak'])       # session names are free text: also ones ending in the letters of '.sav'
     try:
         Ures = session.run_main(['-r', name, '-s', sn])
@@ -243,6 +249,13 @@ def check_case(run, case, tier='quick'):
     finally:
         session.drop_session(sn)
         repo.drop_rules(name)
+        if alt_tmp:
+            tempfile.tempdir = old_tmp
+            if old_env is None:
+                os.environ.pop('TMPDIR', None)
+            else:
+                os.environ['TMPDIR'] = old_env
+            shutil.rmtree(alt_tmp, ignore_errors=True)
 
 def markov_stress_spec(rng):
     """One big OMEN level (tens of thousands of strings) between ordinary structures; the run ends with a non-Markov pre-terminal."""
